@@ -12,7 +12,9 @@ pub fn avoid_all() -> Avoid {
     Avoid {
         alias_wildcard: true,
         resub_qos: true,
-        unsub_shape: true,
+        // R8 was repaired in /repo (one UNSUBACK per UNSUBSCRIBE, driven by the connection's own
+        // subscription set)
+        unsub_shape: false,
         // R9 was repaired in /repo: the region is no longer avoided
         empty_nonretained: false,
         // R11 was repaired in /repo
